@@ -105,13 +105,6 @@ def oracle_pair(case, ctx):
         mark = a1['agent_id_grid']
         if mark.shape != shape or int(mark.sum()) != 1 or int(mark[d1['agent'][0], d1['agent'][1]]) != 1 or set(np.unique(mark)) - {0, 1}:
             ctx.fail(f'{kind}/{name}: agent marker grid is not a single 1 at the agent cell {d1["agent"][:2]}', {'kind': 'agent_marker'})
-        if kind == 'state':
-            ag = a1['agent']
-            h, w = shape
-            exp = [(2 * d1['agent'][0] - h + 1) / (h - 1), (2 * d1['agent'][1] - w + 1) / (w - 1)] + [0.0] * 4
-            exp[2 + {'F': 0, 'B': 1, 'L': 2, 'R': 3}[d1['agent'][2]]] = 1.0
-            if ag.shape != (6,) or not np.allclose(ag, exp, atol=1e-12):
-                ctx.fail(f'state/{name}: agent array {ag.tolist()} != normalised pose + one-hot heading {exp}', {'kind': 'agent_pose'})
     # a copy equals and hashes like its original
     c = fast_copy(s1)
     if not (c == s1) or hash(c.grid) != hash(s1.grid) or hash(c.agent) != hash(s1.agent):
